@@ -95,4 +95,10 @@ CLAIMED = {
               "a counting wrapper checks that once a retained file is cached neither later opens nor reads through their handles reach the source. Sampled exploration."),
         note="the source is immutable during a case (the cache's documented precondition); modification times are not compared",
     ),
+    "C11": dict(
+        technique="property-based testing with rapid + exhaustive enumeration of fault sites (every source read, every cache-store call) per case; harness-gated source reads own the schedule of the concurrent fill (plus a -race leg)",
+        text=("Per generated (size, location, store kind, seekability) every source Read and every cache-store call of the fault-free fill is failed in turn, followed by fault-free re-opens: no open may ever return bytes that differ from the source without an error. "
+              "Concurrent first opens of one file run with every source Read gated: the copy is paused at each chunk boundary while the others run; at most one read in flight, all opens return, all successful opens read complete bytes."),
+        note="goroutines blocked on the path mutex are not observable: a drawn settle delay lets them run before the paused copy is released; fault sites are exhaustive per case, cases are sampled",
+    ),
 }
